@@ -142,6 +142,10 @@ pub enum CommitParams {
     ConfirmedPersist,
     PersistId,
     TimeoutOnly,
+    /// builder calls that ask for nothing: the request is the plain `<commit/>`
+    ConfirmedFalse,
+    PersistNone,
+    PersistIdNone,
 }
 
 #[derive(Debug, Clone, PartialEq, Eq)]
@@ -215,7 +219,7 @@ pub fn required(r: &Recipe, c: Caps) -> Option<bool> {
         Recipe::Commit(p) => {
             let base = c.has(CANDIDATE);
             Some(match p {
-                CommitParams::Plain => base,
+                CommitParams::Plain | CommitParams::ConfirmedFalse | CommitParams::PersistNone | CommitParams::PersistIdNone => base,
                 CommitParams::Confirmed | CommitParams::ConfirmedTimeout | CommitParams::TimeoutOnly => base && cc_any,
                 CommitParams::ConfirmedPersist => base && c.has(CC11),
                 CommitParams::PersistId => base && c.has(CC11),
@@ -287,7 +291,7 @@ pub fn recipes() -> Vec<Recipe> {
     for s in REQ_SCHEMES {
         v.push(Recipe::DeleteUrl(s));
     }
-    for p in [CommitParams::Plain, CommitParams::Confirmed, CommitParams::ConfirmedTimeout, CommitParams::ConfirmedPersist, CommitParams::PersistId, CommitParams::TimeoutOnly] {
+    for p in [CommitParams::Plain, CommitParams::Confirmed, CommitParams::ConfirmedTimeout, CommitParams::ConfirmedPersist, CommitParams::PersistId, CommitParams::TimeoutOnly, CommitParams::ConfirmedFalse, CommitParams::PersistNone, CommitParams::PersistIdNone] {
         v.push(Recipe::Commit(p));
     }
     v.push(Recipe::CancelCommit(false));
@@ -366,6 +370,9 @@ pub fn execute(r: &Recipe, caps: Caps) -> Result<bool, String> {
             CommitParams::ConfirmedPersist => b.confirmed(true)?.persist(Some(Token::new("tok")))?.finish(),
             CommitParams::PersistId => b.persist_id(Some(Token::new("tok")))?.finish(),
             CommitParams::TimeoutOnly => b.confirm_timeout(Duration::from_secs(120))?.finish(),
+            CommitParams::ConfirmedFalse => b.confirmed(false)?.finish(),
+            CommitParams::PersistNone => b.persist(None)?.finish(),
+            CommitParams::PersistIdNone => b.persist_id(None)?.finish(),
         }),
         Recipe::CancelCommit(with_id) => go!(CancelCommit, |b| if *with_id { b.persist_id(Some(Token::new("tok")))?.finish() } else { b.finish() }),
         Recipe::Discard => go!(DiscardChanges, |b| b.finish()),
